@@ -377,11 +377,14 @@ def r04_5(ctx) -> None:
         tests = {n for n in nodes if n.kind == "branch" and isinstance(n.ast, ast.Name) and n.ast.id == "peers"}
         # (a) the removal is guarded by an identity test with the own buffer
         for r in removals:
-            guarded = any(p.kind == "branch" and isinstance(p.ast, ast.Compare)
-                          and any(isinstance(o, ast.Is) for o in p.ast.ops)
-                          and "buffer" in {x.id for x in ast.walk(p.ast) if isinstance(x, ast.Name)}
-                          for p in _pred_chain(r, 4)) or r.ast.func.attr == "remove"  # type: ignore[union-attr]
-            ctx.check(guarded, "R04.5", u, r, "only the child's own buffer is removed from the shared list", node=r)
+            by_identity = any(p.kind == "branch" and isinstance(p.ast, ast.Compare)
+                              and any(isinstance(o, ast.Is) for o in p.ast.ops)
+                              and "buffer" in {x.id for x in ast.walk(p.ast) if isinstance(x, ast.Name)}
+                              for p in _pred_chain(r, 4)) and r.ast.func.attr == "pop"  # type: ignore[union-attr]
+            ctx.check(by_identity, "R04.5", u, r,
+                      "the child's own buffer is removed by identity (index found with `is`)" if by_identity else
+                      "the buffer is removed by equality (`list.remove` compares deques by content): a finishing child "
+                      "can unregister a sibling whose buffer has equal contents, and stays registered itself", node=r)
         ctx.check(bool(removals), "R04.5", u, f"finally of tee_peer ({tag or 'normal'} exit)",
                   "a finishing child removes its buffer from the shared list")
         # (b) close only when no buffer remains, and then always (if closeable)
